@@ -170,3 +170,7 @@ Inductive trim_kind := TrimComma | TrimNlComma | TrimUnknown.
 (* writeModifySQLForATable, "attribute added": TrimSpace + drop the last byte of the column text, and of the first
    foreign-key constraint: drop the last byte + TrimSpace *)
 Inductive post_kind := PostTrimDropLast | PostUnknown.
+
+(* GenerateFromSQLMap, the call that writes a script file: the file is replaced (afero.WriteFile, Create, OpenFile with
+   O_TRUNC) / opened for writing without truncation: the tail of a longer old file stays / opened with O_APPEND *)
+Inductive write_kind := WriteTruncate | WriteKeepTail | WriteAppend | WriteUnknown.
